@@ -371,6 +371,12 @@ int32_t jls_core_fsr_summaryN(struct jls_core_fsr_s * self, uint8_t level, int64
 
     JLS_LOGD2("jls_core_fsr_summaryN %d: entries=%" PRIu32 ", offset=%" PRIi64 ", sample_id=%" PRIi64,
               (int) level, dst->index->header.entry_count, pos, dst->index->header.timestamp);
+    if ((dst->index->header.entry_count >= dst->index_entries)
+            || (dst->summary->header.entry_count >= dst->summary_entries)) {
+        // an earlier attempt to write this level failed (e.g. disk full) and left the buffers full:
+        // write them now, or report the error, but never append past their end
+        ROE(wr_summary(self, level));
+    }
     if (0 == dst->index->header.entry_count) {
         dst->index->header.timestamp = src->index->header.timestamp;
         dst->summary->header.timestamp = src->summary->header.timestamp;
@@ -410,6 +416,12 @@ int32_t jls_core_fsr_summary1(struct jls_core_fsr_s * self, int64_t pos) {
     if (!dst) {
         ROE(jls_core_fsr_summary_level_alloc(self, 1));
         dst = self->level[1];
+    }
+    if ((dst->index->header.entry_count >= dst->index_entries)
+            || (dst->summary->header.entry_count >= dst->summary_entries)) {
+        // an earlier attempt to write this level failed (e.g. disk full) and left the buffers full:
+        // write them now, or report the error, but never append past their end
+        ROE(wr_summary(self, 1));
     }
     data_to_f64(self);
 
